@@ -38,6 +38,8 @@ Fixpoint bits_iter (fuel : nat) (x : N) : list N :=
   | S f => if x =? 0 then [] else ctz64 x :: bits_iter f (N.land x (sub64 x 1))
   end.
 Definition bits (x : N) : list N := bits_iter 64 x.
+(* unfold these last in conversion problems: unrolling the fuel duplicates the argument at every level *)
+Global Strategy 1000 [bits_iter bits].
 
 (* the structural reference for the iterator: members of x in ascending order *)
 Fixpoint bits_pos (p : positive) (i : N) : list N :=
